@@ -92,6 +92,10 @@ type MemConn struct {
 	// OnOp, when set, is asked before every Read/Write (idx counts the
 	// operations of this end, from 0) and may inject a fault.
 	OnOp func(kind string, idx int) *Fault
+	// CloseErr, when set, is returned by the first Close, which closes the
+	// connection all the same (as tls.Conn.Close does when the close-notify
+	// alert cannot be sent).
+	CloseErr error
 	// Tap, when set, sees every buffer written by this end.
 	Tap func(p []byte)
 	ops int
@@ -314,7 +318,7 @@ func (c *MemConn) Close() error {
 		return io.ErrClosedPipe
 	}
 	c.closeNoSched()
-	return nil
+	return c.CloseErr
 }
 
 func (c *MemConn) LocalAddr() Addr                    { return c.local }
